@@ -124,20 +124,19 @@ Lemma full_refuted :
     /\ should_fail_full lvl sc = true.
 Proof. exists f12b_level, f12b_scenario. repeat split; vm_compute; reflexivity. Qed.
 
-Lemma full_vs_impl lvl sc : f12b lvl sc = false -> noncrit_unprocessed lvl sc = false ->
+Lemma full_vs_impl lvl sc : f12b lvl sc = false ->
   should_fail_full lvl sc = should_fail_impl lvl sc.
 Proof.
   unfold should_fail_full, should_fail_impl, plugin_or_attribute_problem, f12b.
   generalize (s_integrity_ok sc) (s_nonstring_crit sc) (plugin_unusable sc) (enforced_failure lvl sc)
-    (plugin_exec_problem lvl sc) (nothing_processes lvl sc) (plugin_demanded sc) (noncrit_unprocessed lvl sc).
-  intros i ns pu ef pe np dem ncu H1 H2. subst ncu.
+    (plugin_exec_problem lvl sc) (nothing_processes lvl sc) (plugin_demanded sc).
+  intros i ns pu ef pe np dem H1.
   destruct i, ns, pu, ef, pe, np, dem; cbn in *; congruence.
 Qed.
 
-Lemma exact_partial lvl sc : wf_sc sc = true ->
-  f12b lvl sc = false -> noncrit_unprocessed lvl sc = false ->
+Lemma exact_partial lvl sc : wf_sc sc = true -> f12b lvl sc = false ->
   (accepted (verify_core lvl sc) = false <-> should_fail_full lvl sc = true).
-Proof. intros W F N. rewrite (full_vs_impl lvl sc F N). now apply exact_iff. Qed.
+Proof. intros W F. rewrite (full_vs_impl lvl sc F). now apply exact_iff. Qed.
 
 (* outside the footprint an accepted signature has every critical extended
    attribute processed by the executed plugin *)
@@ -153,7 +152,7 @@ Proof.
   intros W F A.
   pose proof (core_exact lvl sc W) as E. rewrite A in E. symmetry in E. apply negb_true_iff in E.
   unfold should_fail_impl, plugin_or_attribute_problem in E. rewrite !orb_false_iff in E.
-  destruct E as [[_ [[[[NS PU] PE] NP] NCU]] _]. split; [exact NS|]. intros OC.
+  destruct E as [[_ [[[NS PU] PE] NP]] _]. split; [exact NS|]. intros OC.
   assert (AN : nonempty (asked lvl sc) = true).
   { unfold f12b in F. destruct (plugin_demanded sc); cbn in F, NP.
     - unfold nothing_processes, has_critical in F. destruct (other_crit sc); [congruence|]. cbn in F.
@@ -170,16 +169,19 @@ Proof.
   intros k HIn. unfold crit_processed in CP. rewrite forallb_forall in CP. apply mem_str_In. now apply CP.
 Qed.
 
-(* the implementation-specific strictness the property is silent about *)
-Lemma noncritical_strictness :
-  exists lvl sc, wf_sc sc = true /\ should_fail_full lvl sc = false /\ other_crit sc = []
-                 /\ accepted (verify_core lvl sc) = false.
-Proof.
-  exists (mk_level Enforce Enforce Enforce Enforce),
-         (mk_sc true (AStr "plug") AAbsent false [("note", false)] false 0 true false true true
-                (PMPlugin true true [CapTI]) (PResp [] (Some true) None)).
-  repeat split; vm_compute; reflexivity.
-Qed.
+(* before fix 6f898df an executed plugin also had to acknowledge NON-critical
+   attributes: a rejection the property lists no reason for. The code as it is
+   now accepts the same input. *)
+Definition noncrit_level : level := mk_level Enforce Enforce Enforce Enforce.
+Definition noncrit_scenario : scenario :=
+  mk_sc true (AStr "plug") AAbsent false [("note", false)] false 0 true false true true
+        (PMPlugin true true [CapTI]) (PResp [] (Some true) None).
+
+Lemma noncritical_strictness_v0_refuted :
+  exists lvl sc, wf_sc sc = true /\ f12b lvl sc = false /\ should_fail_full lvl sc = false /\ other_crit sc = []
+                 /\ accepted (verify_core_v0 lvl sc) = false
+                 /\ accepted (verify_core lvl sc) = true.
+Proof. exists noncrit_level, noncrit_scenario. repeat split; vm_compute; reflexivity. Qed.
 
 (* ---------- C02_log_reports ---------- *)
 Lemma accepted_results lvl sc : wf_sc sc = true -> accepted (verify_core lvl sc) = true ->
@@ -321,7 +323,7 @@ Qed.
 Lemma replaces_identity lvl sc caps b : usable_caps sc = Some caps -> has_cap CapTI caps = true ->
   verify_core lvl (set_identity b sc) = verify_core lvl sc.
 Proof.
-  intros U H. unfold verify_core, process_signature.
+  intros U H. unfold verify_core, process_signature, process_signature_gen.
   change (s_integrity_ok (set_identity b sc)) with (s_integrity_ok sc).
   replace (discover (set_identity b sc)) with (discover sc) by (destruct sc; reflexivity).
   destruct (s_integrity_ok sc); [|reflexivity]. cbn [negb].
@@ -335,7 +337,7 @@ Qed.
 Lemma replaces_revocation lvl sc caps b : usable_caps sc = Some caps -> has_cap CapRev caps = true ->
   verify_core lvl (set_rev_ok b sc) = verify_core lvl sc.
 Proof.
-  intros U H. unfold verify_core, process_signature.
+  intros U H. unfold verify_core, process_signature, process_signature_gen.
   change (s_integrity_ok (set_rev_ok b sc)) with (s_integrity_ok sc).
   replace (discover (set_rev_ok b sc)) with (discover sc) by (destruct sc; reflexivity).
   destruct (s_integrity_ok sc); [|reflexivity]. cbn [negb].
@@ -371,14 +373,14 @@ Proof.
   rewrite E in S10. apply andb_true_iff in S10. destruct S10 as [NE EQ].
   assert (CE : forall a b, cap_eqb a b = true <-> a = b) by (intros [] []; cbn; split; congruence).
   apply (list_eqb_spec _ CE) in EQ. split; [exact EQ|]. split; [destruct cs; [discriminate|congruence]|].
-  revert E. unfold verify_core, process_signature.
+  revert E. unfold verify_core, process_signature, process_signature_gen.
   destruct (negb (s_integrity_ok sc)); [discriminate|].
   destruct (discover sc) as [e gets| |n vc]; [discriminate| |].
   all: destruct (native lvl sc _) as [[e rs] c]; destruct e; try discriminate.
   all: destruct (caps_to_verify lvl _) as [|c0 tv].
   all: try (destruct (_ && _); discriminate).
   all: destruct (s_presp sc) as [|p ti rv]; [cbn; congruence|].
-  all: destruct (process_plugin_response lvl sc (c0 :: tv) p ti rv rs); cbn; congruence.
+  all: destruct (process_plugin_response crit_processed lvl sc (c0 :: tv) p ti rv rs); cbn; congruence.
 Qed.
 
 (* ---------- C02_monotone ---------- *)
@@ -410,7 +412,7 @@ Lemma pap_mono l1 l2 sc : wf_sc sc = true -> action_le (l_rev l1) (l_rev l2) = t
 Proof.
   intros W. pose proof (caps_of_shapes sc W) as SH. pose proof (not_demanded_caps sc) as ND.
   destruct l1 as [a1 t1 e1 r1], l2 as [a2 t2 e2 r2]. cbn [l_rev].
-  unfold plugin_or_attribute_problem, plugin_exec_problem, nothing_processes, noncrit_unprocessed, asked, caps_to_verify.
+  unfold plugin_or_attribute_problem, plugin_exec_problem, nothing_processes, asked, caps_to_verify.
   cbn [l_rev].
   destruct (plugin_demanded sc); [clear ND | rewrite (ND eq_refl) in *; clear ND].
   all: generalize (s_nonstring_crit sc) (plugin_unusable sc) (has_critical sc).
@@ -420,7 +422,7 @@ Proof.
   unfold shapes in SH. cbn [In] in SH.
   destruct SH as [<-|[<-|[<-|[<-|[<-|[]]]]]];
     (destruct (s_presp sc) as [|p ti rv];
-     [| generalize (crit_processed sc p) (all_processed sc p); intros cp ap]);
+     [| generalize (crit_processed sc p); intros cp]);
     clear; enum_all.
 Qed.
 
@@ -458,21 +460,16 @@ Proof.
 Qed.
 
 (* ---------- the oracle ---------- *)
-Lemma oracle_bool (i ns pu ef pe np dem ncu : bool) :
-  (dem && np) && negb (negb i || (ns || pu || pe || (negb dem && np) || ncu) || ef) = false ->
-  (if negb i || ns || pu || ef || pe || np
-   then negb (negb (negb i || (ns || pu || pe || (negb dem && np) || ncu) || ef))
-   else if ncu then true else negb (negb i || (ns || pu || pe || (negb dem && np) || ncu) || ef)) = true.
-Proof. destruct i, ns, pu, ef, pe, np, dem, ncu; cbn; congruence. Qed.
-
 Lemma spec_ok_obs_partial lvl sc : wf_sc sc = true ->
   f12b lvl sc && negb (should_fail_impl lvl sc) = false ->
   spec_ok_obs lvl sc (verify_core lvl sc) = true.
 Proof.
   intros W F. unfold spec_ok_obs. rewrite (core_shape lvl sc W), andb_true_r.
-  rewrite (core_exact lvl sc W). revert F.
+  rewrite (core_exact lvl sc W), negb_involutive. revert F.
   unfold should_fail_full, should_fail_impl, plugin_or_attribute_problem, f12b.
-  apply oracle_bool.
+  generalize (s_integrity_ok sc) (s_nonstring_crit sc) (plugin_unusable sc) (enforced_failure lvl sc)
+    (plugin_exec_problem lvl sc) (nothing_processes lvl sc) (plugin_demanded sc).
+  intros i ns pu ef pe np dem. destruct i, ns, pu, ef, pe, np, dem; cbn; congruence.
 Qed.
 
 Lemma model_spec_ok_partial i : wf i = true -> fp i = 0%N -> spec_ok i (model i) = true.
